@@ -187,3 +187,14 @@ def fmt_int(x):
     if -(1 << 60) < x < (1 << 60):
         return str(x)
     return ("-0x%x" % -x) if x < 0 else ("0x%x" % x)
+
+
+def coqchk(rel_v, timeout=2400):
+    """independent re-check of a compiled Props file and everything it depends on; returns (ok, summary text)"""
+    mod = "JP." + rel_v[:-2].replace("/", ".")
+    rc, out = sh("timeout %d coqchk -silent -o -Q . JP %s" % (timeout, mod), timeout=timeout + 30, cwd=COQ)
+    i = out.find("CONTEXT SUMMARY")
+    summary = out[i:] if i >= 0 else out[-1500:]
+    ok = rc == 0 and "Axioms: <none>" in summary.replace("* ", "") and "type-in-type: <none>" in summary and "unsafe (co)fixpoints: <none>" in summary \
+        and "positivity is assumed: <none>" in summary
+    return ok, " ".join(summary.split())[:1200]
